@@ -189,7 +189,8 @@ def run_config(args):
     out["impl_rc"] = p.returncode
     out["impl_err"] = p.stderr.decode("utf8", "replace")[-1500:] if p.returncode else ""
     # (2) facade crate: build (and run) the repository's test programs for this configuration
-    f2 = feats + (",std" if std else "")
+    # targets with `required-features = ["full"]` are only selectable when `full` itself is named
+    f2 = ("full" if set(FEATURES) <= set(cfg) else feats) + (",std" if std else "")
     # the `compile_fail` target (trybuild) cannot run offline: it fails on the unchanged tree in the baseline too
     targets = [t for t, req in test_targets() if t != "compile_fail" and all(r in cfg or (r == "full" and set(FEATURES) <= set(cfg)) for r in req)]
     sel = sum((["--test", t] for t in targets), []) if (do_tests and targets) else ["--tests"]
